@@ -1,23 +1,26 @@
 #!/bin/bash
 # usage: benign_check.sh [-p "C01 C02"] <patch>...
-# Applies each behaviour-preserving patch to /repo, runs the quick checks (all 20 by default, in parallel), reverts.
-# Prints every alarm (VIOLATION / unresolved / floor) raised; a benign patch must raise none.
+# Applies each behaviour-preserving patch in a private scratch worktree of /repo (never /repo itself), runs the quick
+# checks (all 20 by default, in parallel) with -repo pointing at it, and prints every alarm raised. A benign patch
+# must raise none ("silent"). Evidence files are not touched (-out).
 set -u
 export GOFLAGS=-mod=mod GOPROXY=off GOSUMDB=off GOTOOLCHAIN=local GOWORK=off PATH=/opt/veriftools/go1.26.8/bin:$PATH
 props=$(seq -f "C%02g" 1 20)
 if [ "${1:-}" = "-p" ]; then props=$2; shift 2; fi
-[ -z "$(git -C /repo status --porcelain)" ] || { echo "/repo not clean"; exit 2; }
-( cd /verif/atlascheck && go build -o /verif/bin/atlascheck . ) || exit 2
+bin=/tmp/atlascheck.benign.$$
+( cd /verif/atlascheck && go build -o $bin . ) || exit 2
+wt=/tmp/wt/benign-$$
+git -C /repo worktree add -q --detach $wt HEAD || exit 2
 tmp=$(mktemp -d /tmp/benign.XXXXXX)
+trap 'git -C /repo worktree remove --force '$wt' >/dev/null 2>&1; rm -rf '$tmp' '$bin EXIT
 for patch in "$@"; do
-  git -C /repo apply "$patch" 2>/dev/null || { echo "$patch: does not apply"; continue; }
-  echo $props | tr ' ' '\n' | xargs -P 10 -I{} sh -c "/verif/bin/atlascheck -prop {} -tier quick -out $tmp/{}.json > $tmp/{}.log 2>&1"
+  git -C $wt apply "$patch" 2>/dev/null || { echo "$patch: does not apply"; continue; }
+  echo $props | tr ' ' '\n' | xargs -P 8 -I{} sh -c "$bin -repo $wt -prop {} -tier quick -out $tmp/{} > $tmp/{}.log 2>&1"
   out=""
   for p in $props; do
     r=$(grep -A1 "^VIOLATION" $tmp/$p.log | grep "rule=" | cut -c1-300)
     [ -n "$r" ] && out="$out\n  $p: $r"
   done
-  git -C /repo checkout -- . ; git -C /repo clean -fdq
+  git -C $wt checkout -- . ; git -C $wt clean -fdq
   if [ -z "$out" ]; then echo "$patch: silent"; else echo -e "$patch: ALARMS$out"; fi
 done
-rm -rf $tmp
